@@ -376,3 +376,9 @@ _quick("C17", "C17_zerowaiter", "a holder and 1..2 queued requests of which the 
 _quick("C10", "C10_probable", "the same 0..3 holds (symbolic Count of the oldest) on a leader instance and, from the stream, on a follower instance; the same request (concurrent-check flag, Timeout 0, symbolic Count, with or without wait-when-unlocked) to the leader's LockDB.Lock and to the follower's LockDB.CheckProbableLock: whenever the follower answers on its own, its answer is the leader's", ["-witness", "1"], reach=["end", "answered-locally"])
 
 _quick("C13", "C13_execute", "a LOCK carrying an EXECUTE value frame (nested LOCK with a 4-byte value, stage current / unlock / timeout) whose nested length prefix is any value 0..16 and whose tail is cut by 0..6 bytes, through the real LockDB.Lock -> ProcessLockData -> DecodeLockCommand, then UNLOCK: answered, no crash", ["-witness", "10"], blocked="violation")
+
+_quick("C09", "C09_sendstream", "four persisted records in the replication ring, of which the first / second / third / fourth / none carries a 5000-byte value (larger than the sender's 4096-byte batch buffer), drained by the real ReplicationServer.SendProcess into a capturing connection: the captured live stream, cut into records and values as the follower reads it, is the ring's sequence (same positions, same order, no bytes more or less)", ["-witness", "1"])
+
+_quick("C03", "C03_longgrant", "a request queued on an exclusive or two-slot key (Expried > 0 or 0) that has waited 10 s (seconds wheel) or 50 s (long-wait table) is granted when a holder leaves; its own unlock, three more sweeps and a third party's LOCK follow: its LOCK has exactly one reply (SUCCED) throughout, and the slot it gave back is free", ["-witness", "1"])
+
+_quick("C07", "C07_sharedvalue", "a key of capacity 5 whose first holder sets a value with E = 2 s (or 120 s); a second holder joins without a value operation, or the setter renews with the update flag, with E = 120 s; all persisted at once; restart 5 s later (the setter's first record has run out and is skipped): the surviving hold is restored with the key's value", ["-witness", "1"])
